@@ -496,6 +496,57 @@ def _hostile_loop(s, runs, hostile, n_iter, hit, ret_alias, snaps):
                 post=digest(list(s.posterior(trim_importance_weights=False))))
 
 
+def run_appendonly(cfg, resume):
+    """A complete Sampler.run() (fresh, or resumed from a mid-run checkpoint) observed at the state manager's commit: every batch is
+    digested the moment it is committed; after run() has returned, every recorded quantity must hold exactly those batches (nothing
+    - an iteration or the code after the loop - may go back and rewrite a committed batch)."""
+    import shutil
+    from tvf import runs, attach
+    from tempest.state_manager import StateManager
+    from tvf.checks.c08 import tmpdir
+    c = runs.full(cfg)
+    bad = []
+    committed = []        # list of {key: digest} per commit, in order
+    tmp = tmpdir() if resume else None
+    try:
+        np.random.seed(c["seed"])
+        if resume:
+            c = dict(c, output_dir=tmp, output_label="ao")
+            s0 = runs.build(c)[0]
+            s0.run(n_total=c["n_total"], progress=False, save_every=2)
+            files = sorted((f for f in os.listdir(tmp) if f.startswith("ao_") and "final" not in f), key=lambda f: int(f.split("_")[1].split(".")[0]))
+        s, t, like, pt = runs.build(c)
+        with attach.Hooks() as hk:
+            def after_commit(ctx, r, self, *a, **k):
+                if self is s.state:
+                    committed.append({k2: digest(self._history[k2][-1]) for k2 in HKEYS + ("blobs",) if len(self._history.get(k2, []))})
+            hk.wrap(StateManager, "commit_current_to_history", after=after_commit)
+            attach.iteration_budget(hk, 400)
+            if resume and files:
+                s.run(n_total=2 * c["n_total"], progress=False, resume_state_path=os.path.join(tmp, files[len(files) // 2]))
+            else:
+                s.run(n_total=c["n_total"], progress=False)
+        sm = s.state
+        T = sm.get_history_length()
+        first = T - len(committed)           # batches restored from the checkpoint came before the observed commits
+        for j, rec in enumerate(committed):
+            for k2, dg in rec.items():
+                now = digest(sm._history[k2][first + j]) if first + j < len(sm._history[k2]) else None
+                if now != dg:
+                    bad.append(("history-not-append-only", f"the '{k2}' batch committed by iteration {first + j + 1} of {T} reads differently after run() returned "
+                                f"(committed {np.asarray(sm.get_history(k2, index=first + j)).ravel()[:3]}...): a committed batch was rewritten"))
+                    break
+            if bad:
+                break
+        lens = {k2: len(sm._history[k2]) for k2 in HKEYS}
+        if len(set(lens.values())) != 1:
+            bad.append(("history-not-append-only", f"recorded quantities out of step after run(): {lens}"))
+        return bad, len(committed)
+    finally:
+        if tmp:
+            shutil.rmtree(tmp, ignore_errors=True)
+
+
 def twin(cfg, n_iter):
     a = hostile_run(cfg, False, n_iter)
     b = hostile_run(cfg, True, n_iter)
@@ -551,7 +602,20 @@ def run():
         ck.event("arrays overwritten by the hostile caller", hit)
         for key, what in bad:
             ck.violation(key, what, dict(cfg=tasks[i][1]["cfg"]))
+    at = [("tvf.checks.c17:run_appendonly", dict(cfg=tcfg(i + 100), resume=bool(i % 2)), None) for i in range(ck.pick(6, 40))]
+    for i, st, val in farm.run(at, timeout=600, progress="C17-appendonly"):
+        kw = at[i][1]
+        if st != "ok":
+            ck.violation("twin-run-crashed", f"append-only run {kw['cfg']}: {st} {str(val)[-600:]}", kw)
+            continue
+        bad, ncom = val
+        ck.case(dict(appendonly=kw), nontrivial=ncom > 2)
+        ck.event("complete run() calls observed at commit and compared after return", 1)
+        ck.event("committed batches digested at commit time and re-read after run() returned", ncom)
+        for key, what in bad:
+            ck.violation(key, what, kw)
     ck.require_events("operation sequences compared with reference model", "op commit", "op to_dict", "op results",
+                      "committed batches digested at commit time and re-read after run() returned",
                       "sampler twin runs (hostile vs untouched caller)", "arrays overwritten by the hostile caller")
     return ck.finish(
         rule="random sequences of 40 StateManager operations (set/update with copy on and off, commit, every getter, to_dict, "
